@@ -8,6 +8,9 @@ CHECKS = {
  'C17': dict(level='exploration', design='3/C17', technique='differential runtime monitor: library vs independent in-process reference codec under ASan/UBSan, exhaustive single-symbol corruption per sampled string',
    text='Every generated publication string is pushed through the real encoder/decoder built with ASan+UBSan and compared with an independent reference (base32, CRC-32, layout); for each string all 31 x length substitutions, all adjacent transpositions, deletions, appends and all 256 byte values are tried. Held = no disagreement and no sanitizer report on the strings explored.',
    note='Trusts the reference codec in harness/c17_pubstr.c and the sanitizer runtimes; strings are sampled (boundary + random times, all known algorithms), corruptions per string are exhaustive.'),
+ 'C01': dict(level='exploration', design='3/C01', technique='differential runtime monitor: real verifier (ASan/UBSan) vs independent reference evaluator of INT-01..17 over reference-built signatures and semantic mutants',
+   text='A reference aggregator/calendar builds honest signatures with random tree shapes; ~35 single-point semantic mutators and second-order mutants are applied; each case is parsed by the reference parser, judged by an independent evaluator of the consistency conditions, and compared with KSI_SignatureVerifier_verify(INTERNAL) and KSI_Signature_parse on the real library. Held = verdict classes agreed on every explored case and no sanitizer report; the run is inconclusive unless every code INT-01..15,17 was produced by a single-violation case.',
+   note='Trusts vlib/refksi.py (calibrated against the bundled cross-SDK conformance pack, tools/calibrate.py), hashlib, the sanitizer runtimes. INT-16 cannot be provoked (no algorithm has an obsolescence date).'),
 }
 NOT_YET = 'check not built yet in this session (planned in DESIGN.md section 3)'
 
